@@ -120,9 +120,23 @@ def poll_leaf(ip, loc, leaf):
     if k in ('sleep', 'notified', 'deleted', 'generic'):
         if k == 'sleep' and getattr(p, 'timers_never_fire', False):
             return PENDING
-        if k == 'deleted' and getattr(p, 'deleted_signal', None) is not None:
-            if not p.deleted_signal():
+        phase = getattr(p, 'phase', None)
+        if phase is None and k == 'deleted':
+            return PENDING       # no deletion is part of this scenario
+        if phase is not None and k == 'deleted':
+            if phase == 'A':
                 return PENDING
+            write_loc(loc, Leaf(k, leaf.data, True))
+            p.effect('ready', k, leaf.data)
+            return ready(UNIT)
+        if phase is not None and k == 'notified':
+            created = leaf.data[1] if isinstance(leaf.data, tuple) else 'A'
+            # notify_waiters() of the deletion reaches exactly the Notified futures created before it
+            if not (phase == 'B' and created == 'A'):
+                return PENDING
+            write_loc(loc, Leaf(k, leaf.data, True))
+            p.effect('ready', k, leaf.data)
+            return ready(UNIT)
         if may_pend(ip, k):
             return PENDING
         write_loc(loc, Leaf(k, leaf.data, True))
@@ -206,6 +220,12 @@ def poll_future(ip, loc):
 
 
 def install(ctx):
+    M = ctx.models
+    _install_base(ctx)
+    install_streams(ctx)
+
+
+def _install_base(ctx):
     M = ctx.models
 
     @M.reg('mpsc::channel')
@@ -347,4 +367,127 @@ def install(ctx):
     def notified(ip, pc, args, dt):
         n = read_loc(args[0].loc)
         ip.path.effect('notified()', n.name)
-        return Leaf('notified', n.name)
+        ph = getattr(ip.path, 'phase', None)
+        return Leaf('notified', (n.name, ph) if ph is not None else n.name)
+
+
+# ====================================================================== streams (async_stream / tokio_stream / tonic Streaming)
+
+class YieldTx(Model):
+    """async_stream's yielder sender: yielded values land in `slot` (a python list)"""
+
+    def __init__(self, slot):
+        self.slot = slot
+
+
+class AsyncStreamM(Model):
+    def __init__(self, gen_cell, slot):
+        self.gen_cell = gen_cell
+        self.slot = slot
+        self.done = False
+
+
+class MergeM(Model):
+    def __init__(self, a, b):
+        self.a, self.b = a, b
+
+
+class StreamingM(Model):
+    """tonic::Streaming<T>: the client's request stream; `items` are still to come, then it stays open or ends"""
+
+    def __init__(self, items, ends=False):
+        self.items = list(items)
+        self.ends = ends
+
+
+def poll_stream_next(ip, st):
+    """Stream::poll_next on an AsyncStreamM: resume the generator; an item if it yielded, None when it finished"""
+    if st.done:
+        return ready(NONE)
+    del st.slot[:]
+    r = yield from poll_future(ip, Loc(st.gen_cell))
+    if st.slot:
+        v = st.slot.pop(0)
+        return ready(some(v))
+    if r.discr == 0:
+        st.done = True
+        return ready(NONE)
+    return PENDING
+
+
+def install_streams(ctx):
+    M = ctx.models
+
+    @M.reg('yielder::pair', 'async_stream::yielder::pair')
+    def yielder_pair(ip, pc, args, dt):
+        slot = []
+        return Agg(None, [YieldTx(slot), Opaque('yield-rx', slot)])
+
+    @M.reg('AsyncStream::new')
+    def async_stream_new(ip, pc, args, dt):
+        rx, gen = args
+        return AsyncStreamM(Cell(gen, 'generator'), rx.data)
+
+    prev_send = M.table.get('Sender::send')
+
+    @M.reg('Sender::send')
+    def yield_send(ip, pc, args, dt):
+        s = args[0]
+        if isinstance(s, Ref):
+            s = read_loc(s.loc)
+        if isinstance(s, YieldTx):
+            return Leaf('yield', (s, args[1], [False]))
+        return prev_send(ip, pc, args, dt)
+
+    @M.reg('Poll::map')
+    def poll_map(ip, pc, args, dt):
+        pl, f = args
+        if pl.discr == 1:
+            return pl
+        r = yield from ip.call_closure(f, [pl.payload[0][0]])
+        return ready(r)
+
+    @M.reg('Poll::is_ready', 'Poll::is_pending')
+    def poll_is(ip, pc, args, dt):
+        pl = read_loc(args[0].loc)
+        return bool_s(z3.BoolVal((pl.discr == 0) == (pc['method'] == 'is_ready')))
+
+    @M.reg('<StreamExt>::merge')
+    def stream_merge(ip, pc, args, dt):
+        return MergeM(args[0], args[1])
+
+    @M.reg('<StreamExt>::next')
+    def stream_next(ip, pc, args, dt):
+        return Leaf('stream.next', args[0])
+
+
+_prev_poll_leaf = poll_leaf
+
+
+def poll_leaf(ip, loc, leaf):          # noqa: F811  (extends the leaf kinds above)
+    p = ip.path
+    if leaf.kind == 'yield':
+        tx, value, state = leaf.data
+        if not state[0]:
+            # first poll: hand the value to the stream and suspend
+            state[0] = True
+            tx.slot.append(value)
+            p.effect('yield', value)
+            return PENDING
+        write_loc(loc, Leaf('yield', leaf.data, True))
+        return ready(UNIT)
+    if leaf.kind == 'stream.next':
+        sref = leaf.data
+        st = read_loc(sref.loc) if isinstance(sref, Ref) else sref
+        if isinstance(st, StreamingM):
+            if st.items:
+                v = st.items.pop(0)
+                write_loc(loc, Leaf('stream.next', leaf.data, True))
+                return ready(some(ok(v)))
+            if st.ends:
+                write_loc(loc, Leaf('stream.next', leaf.data, True))
+                return ready(NONE)
+            return PENDING         # the client keeps its request stream open and silent
+        raise Unsupported('next() on %r' % (st,))
+    r = yield from _prev_poll_leaf(ip, loc, leaf)
+    return r
